@@ -11,6 +11,12 @@ mod canonization;
 mod hctl_operators_eval;
 mod low_level_operations;
 
+/// **(verification hook)** Re-exports of crate-private helpers for the external harness in `/verif`.
+#[cfg(feature = "verif_hooks")]
+pub mod verif_hooks {
+    pub use super::canonization::{get_canonical, get_canonical_and_renaming};
+}
+
 /// Shorthand for mapping of free variables to (optional) labels of their domain.
 pub type VarDomainMap = BTreeMap<String, Option<String>>;
 
